@@ -54,11 +54,53 @@ def run(ctx):
             return ("foreign", e)
         return ("ok", host, port, rb)
 
+    def cfg(driver):
+        if not isinstance(getattr(driver, "_cfg", None), dict) or "cip_path" not in driver._cfg:
+            return None   # the driver keeps its route elsewhere: this white-box part cannot observe it
+        try:
+            return ("ok", driver._cfg["ip address"], driver._cfg["port"], bytes(p.PADDED_EPATH.encode(driver._cfg["cip_path"], length=True)))
+        except Exception as e:  # noqa
+            return ("exc", e)
+
+    def construct(cls, s):
+        try:
+            return cls(s)
+        except RequestError as e:
+            return e
+        except Exception as e:  # noqa
+            return e
+
+    def judge_ctor(s, auto_slot, ref, origin):
+        """the same string handed to a driver constructor: the constructor is the entry point users have"""
+        cls = p.CIPDriver if not auto_slot else rng.choice([p.LogixDriver, p.SLCDriver])
+        d = construct(cls, s)
+        res.ev()
+        res.seen("ctor-" + origin, cls.__name__, ref[0])
+        if ref[0] == "ok":
+            want = ("ok", ref[1], ref[2] or 44818, refpath.route_bytes(ref[3]))
+            got = cfg(d) if not isinstance(d, Exception) else ("exc", d)
+            if got is None:
+                res.dont_care("driver-route-not-observable")
+            elif got != want:
+                res.violation(f"ctor-route:{cls.__name__}", f"{cls.__name__}({s!r}) -> {got!r:.200}, expected {want!r:.200}", {"path": s})
+        elif not isinstance(d, RequestError):
+            ok_reject = False
+            if not isinstance(d, Exception):
+                c_ = cfg(d)
+                if c_ is None:
+                    res.dont_care("driver-route-not-observable")
+                    return
+                ok_reject = c_[0] == "exc" and isinstance(c_[1], DataError)
+            if not ok_reject:
+                res.violation(f"ctor-accepts-malformed:{cls.__name__}", f"{cls.__name__}({s!r}) -> {d!r:.160} although the string is outside the grammar ({ref[1]})", {"path": s})
+
     def judge(s, auto_slot, origin):
         ref = refpath.classify(s, auto_slot)
         if ref[0] == "dontcare":
             res.dont_care(ref[1])
             return
+        if origin in ("edit", "boundary") and rng.random() < (0.15 if origin == "edit" else 1.0):
+            judge_ctor(s, auto_slot, ref, origin)
         got = lib_parse(s, auto_slot)
         res.ev()
         if ref[0] == "ok":
